@@ -22,6 +22,8 @@ ALPHABET = [0, 1, 2, 4, 8, 16, 32, 64, 128, 3]     # 3 = invalid code
 # or absolute value is a direction code, no-data style values
 INVALID = [3, 5, 255, 256, 257, 258, 260, 384, 513, -128, -1, -4, -9999,
            1000, 2**31 - 1, -2**31, 65536 + 4]
+INVALID64 = [2**32 + 16, 2**32 + 1, 2**33 + 4, 2**40 + 64, 2**62 + 128,
+             -(2**32) + 2, 2**32, 2**31 + 8, 2**63 - 1]
 
 
 def down_model(fd):
@@ -144,7 +146,7 @@ def enum_grids(shapes, alphabet=ALPHABET):
 # ------------------------------------------------------------ random grids
 @st.composite
 def random_grid(draw, maxdim=12, kinds=("uniform", "forest", "forest",
-                                        "majority")):
+                                        "majority"), wide=False):
     nr = draw(st.integers(1, maxdim))
     nc = draw(st.integers(1, maxdim))
     kind = draw(st.sampled_from(list(kinds)))
@@ -179,11 +181,14 @@ def random_grid(draw, maxdim=12, kinds=("uniform", "forest", "forest",
                 fd.append(exits[choice[c] % len(exits)])
             else:
                 fd.append(0)
-    # a few cells overwritten with other invalid codes (terminal cells)
+    # a few cells overwritten with other invalid codes (terminal cells);
+    # `wide` adds codes beyond 32 bits whose low bytes / words are direction
+    # codes (only for grids stored as int64)
     if draw(st.integers(0, 3)) == 0:
         fd = list(fd)
+        pool = INVALID + (INVALID64 if wide else [])
         for _ in range(draw(st.integers(1, 3))):
-            fd[draw(st.integers(0, n - 1))] = draw(st.sampled_from(INVALID))
+            fd[draw(st.integers(0, n - 1))] = draw(st.sampled_from(pool))
         kind = kind + "+invalid-codes"
     return {"shape": [nr, nc], "fd": fd, "kind": kind}
 
